@@ -572,15 +572,11 @@ void fp16_print(const fp16_t a) {
 }
 
 int fp16_size_bin(fp16_t a, int pack) {
-	if (pack) {
-		if (fp16_test_cyc(a)) {
-			return 8 * RLC_FP_BYTES;
-		} else {
-			return 16 * RLC_FP_BYTES;
-		}
-	} else {
-		return 16 * RLC_FP_BYTES;
-	}
+	/* There is no compressed form: fp16_write_bin and fp16_read_bin only
+	 * handle the full encoding. */
+	(void)a;
+	(void)pack;
+	return 16 * RLC_FP_BYTES;
 }
 
 void fp16_read_bin(fp16_t a, const uint8_t *bin, size_t len) {
